@@ -695,8 +695,8 @@ func (x *reasm) c01r7() {
 func init() {
 	props["C02"] = propC02
 	propMeta["C02"] = PropMeta{
-		Explanation: "Ordering ingredients decided structurally: the roll-over window constant, a comparator that widens before subtracting and flips the strict inequality on the far-apart edge, sort-after-insert on every path of Put that grows seqs, head-of-line-only eviction (only seqs[0] is ever evicted and a non-evicting iteration leaves the loop), forward walk of the evicted slice in callback with append-at-end accumulation.",
-		NotDecided:  "That the comparator is a strict weak order within one 2^24 window (arithmetic over all pairs) and that sort.Sort sorts.",
+		Explanation: "Ordering ingredients decided structurally: the roll-over window constant; the comparator Less decided exactly as a function of its two elements (every path is a conjunction of linear comparisons of the widened elements; for each region a-b > M, b-a > M, |a-b| <= M a path can reach, Fourier-Motzkin refutation shows the returned comparison is the serial-number order, with no 32-bit wrap in any subtraction); sort-after-insert on every path of Put that grows seqs, head-of-line-only eviction (only seqs[0] is ever evicted and a non-evicting iteration leaves the loop), forward walk of the evicted slice in callback with append-at-end accumulation.",
+		NotDecided:  "That sort.Sort sorts a window in which Less is a strict weak order (it is one when all buffered sequence numbers lie within one 2^24 window, which is the property's stated domain), and the delivered order under concurrent callers.",
 		Assumptions: []string{"sort.Sort sorts according to Less"},
 	}
 }
